@@ -392,8 +392,11 @@ class BlockCode(BlockToken):
         trailing_blanks = 0
         for line in lines:
             if line.strip() == '':
-                line_buffer.append(line.lstrip(' ') if len(line) < 5 else line[4:])
-                trailing_blanks = trailing_blanks + 1 if line == '\n' else 0
+                # a blank line loses up to four columns of indentation like any other line;
+                # blank lines at the end, with or without whitespace, do not belong to the block
+                rest = cls.strip(line)
+                line_buffer.append(rest if rest != line else '\n')
+                trailing_blanks += 1
                 continue
             if not line.replace('\t', '    ', 1).startswith('    '):
                 lines.backstep()
